@@ -226,7 +226,9 @@ def run_doc(specs: List[dict], mode: str, c: Counter, tag: str):
     """One document: the operation sequence on the real writer, then every oracle."""
     rp = {'kind': 'doc', 'specs': specs, 'mode': mode}
     built_all = [(build(s), bool(s.get('reject'))) for s in specs]
-    buf = io.StringIO()
+    sink = specs[0].get('sink') if specs else None
+    raw = io.BytesIO() if sink else None
+    buf = io.TextIOWrapper(raw, encoding=sink, newline='') if sink else io.StringIO()
 
     def do_writes(w):
         for (kw, _), rej in built_all:
@@ -259,7 +261,15 @@ def run_doc(specs: List[dict], mode: str, c: Counter, tag: str):
     if len(built) != len(specs):
         tag = tag + '-with-rejected-write'
     specs = [s for s in specs if not s.get('reject')]
-    text = buf.getvalue()
+    if sink:
+        tag = tag + '-' + sink + '-file'
+        try:
+            buf.flush()
+            text_from_bytes = raw.getvalue().decode(sink)
+        except Exception as e:  # noqa
+            c.violate(f'encode:{tag}', f'the bytes written to a {sink} file cannot be read back as text: {e}', rp)
+            return
+    text = text_from_bytes if sink else buf.getvalue()
     c.inc('evals')
     c.inc('documents')
     c.inc('records', len(specs))
@@ -341,6 +351,8 @@ def one_factor_specs(seed: int) -> List[tuple]:
         var('name', names=['Alpha', nm, 'Alpha', nm])
         var('name', names=[nm, nm + 'x', nm + 'y', nm + 'z'])
         var('id', id=nm)
+    for nm in NAMES:
+        var('name', names=[nm, 'Beta', nm + 'é', 'Beta'], id=nm, sink='utf-8')
     for sc in Scoring:
         var('scoring', scoring=sc.name)
     for ns in (0, -50, 7600, -7600, 10 ** 12):
@@ -392,6 +404,11 @@ def run(tier, seed, workers):
                 seq = [pl[(pos + i) % len(pl)] for i in range(n)]
                 docs.append((m, seq[:pos] + [rej] + seq[pos:]))
     docs.append(('manual', [rej, rej, pl[0], rej]))
+    # records that share a board id are still separate records (a second round, a replay at another table)
+    same = [dict(pl[0], id='1'), dict(pl[2], id='2'), dict(pl[3], id='1', dealer='S', vul='Both', dda=True), dict(pl[1], id='1'), dict(pl[0], id='2', deal=seed + 77)]
+    docs.append(('with', same))
+    docs.append(('manual', same[::2]))
+    docs.append(('with', [same[3], same[0]]))
     if tier == 'thorough':
         # all pairs of the small menus on one record
         extra = []
@@ -411,7 +428,7 @@ def run(tier, seed, workers):
         'rule': 'operation sequences open, write^k, close (k = 0..3; manual and context-manager) of JsonLogWriter on an in-memory stream; records: '
                 'all 105 bid x doubling contracts + both passed-out encodings x 4 vul, 4 declarers x 4 vul x 4 dealers, auction menu (empty .. 319 calls), '
                 '0..13 recorded tricks, dda on/off, names and ids over a Unicode menu (empty, quote, backslash, newline, tab, non-BMP, lone surrogate, U+2028, '
-                'JSON-looking text), every Scoring value, extreme scores; ordered pairs and triples of a 5-record pool; a refused write (unserialisable value) injected at every position of sequences of length <= 3; oracles: json.loads, Draft-7 validation '
+                'JSON-looking text), every Scoring value, extreme scores; ordered pairs and triples of a 5-record pool; a refused write (unserialisable value) injected at every position of sequences of length <= 3; records that share a board id but differ in content; every name also through a UTF-8 encoded file object (as the server writes it); oracles: json.loads, Draft-7 validation '
                 'against the shipped log schema (cross-file $ref via a registry), parse_board_logs field by field as value objects, parse_board_settings on the same text',
         'samples': [{'k': 2, 'records': ['7NTXX by W, 13 tricks, dda, id x"y', 'passed out, id ]}']}, {'k': 0, 'text': '{"logs": [\n]}'},
                     {'k': 1, 'names': ['', '\\ud800', '', '\\ud800'], 'contract': '4SX', 'tricks': 0}],
